@@ -119,6 +119,15 @@ class iterable_loader(DataStreamProcessor):
         dp.descriptor.setdefault('resources', []).append(self.res.descriptor)
         return dp
 
+    def rows(self):
+        try:
+            yield from self.res.iter(keyed=True)
+        except Exception:
+            # report the exception the iterable raised, not the wrapper the reader puts around its text
+            if self.exc is not None:
+                raise self.exc
+            raise
+
     def process_resources(self, resources):
         yield from super(iterable_loader, self).process_resources(resources)
-        yield self.res.iter(keyed=True)
+        yield self.rows()
